@@ -346,8 +346,33 @@ def check(ctx):
             return 'stall'
         return 'unknown'
     nloops = 0
+    def min_size(S):
+        """smallest value the size term S can take in a reachable state (>= 1 channel, >= 1 result), or None"""
+        if T.is_num(S):
+            return S[1]
+        if isinstance(S, tuple) and S and S[0] == 'count':
+            return 0                       # number of elements that pass a filter: possibly none
+        if isinstance(S, tuple) and S and S[0] == 'size':
+            V = S[1]
+            if isinstance(V, tuple) and V and V[0] == 'vcomp':
+                base = min_size(T.size(V[1])) if V[1] != T.vempty() else 0
+                if base is None:
+                    return None
+                if V[5] != T.TRUE:
+                    return base            # every element may be filtered out
+                n_ = min_size(T.diff(V[4], V[3])) if not T.is_num(T.diff(V[4], V[3])) else T.diff(V[4], V[3])[1]
+                return None if n_ is None else base + n_
+            if isinstance(V, tuple) and V and V[0] == 'fld' and V[2] in ('adjustment_data_', 'channel_weights_', 'results_'):
+                return 1
+            return None
+        if isinstance(S, tuple) and S and S[0] in ('+',):
+            a_, b_ = min_size(S[1]), min_size(S[2])
+            return None if a_ is None or b_ is None else a_ + b_
+        return None
+
     for f in list(instances(p, 'hep::multi_channel_summary')) + list(instances(p, 'hep::make_list_of_ranges')) + \
-            list(p.find('hep::minimal_weight_channels')) + list(instances(p, 'hep::callback::operator()')):
+            list(p.find('hep::minimal_weight_channels')) + list(p.find('hep::multi_channel_max_difference')) + \
+            list(instances(p, 'hep::callback::operator()')):
         ctx.analysed(f)
 
         def r7(f=f):
@@ -359,8 +384,22 @@ def check(ctx):
                 nloops += 1
                 w = '%s:%s' % (l.node.where(), f.name)
                 if l.lo is not None and l.hi is not None:
-                    ctx.holds('R7.loops_make_progress', w, 'counting loop over [%s, %s)' % (T.pretty(l.lo)[:40],
-                                                                                             T.pretty(l.hi)[:40]))
+                    # `i != size - c` with an unsigned size: if the container can hold fewer than c elements the bound
+                    # wraps around and the loop runs (and indexes) far beyond the end
+                    hi = l.hi
+                    wraps = None
+                    if isinstance(hi, tuple) and hi and hi[0] == '-' and T.is_num(hi[2]) and hi[2][1] >= 1:
+                        ms = min_size(hi[1])
+                        if ms is not None and ms < hi[2][1]:
+                            wraps = (hi[1], hi[2][1], ms)
+                    if wraps:
+                        ctx.violation('R7.loops_make_progress', w, 'the loop bound %s is computed in unsigned arithmetic '
+                                      'and the container can hold only %s element(s) (e.g. every element filtered out): '
+                                      'the bound wraps around and the loop runs past the end of the container'
+                                      % (T.pretty(hi)[:80], wraps[2]), {'bound': T.pretty(hi)[:200]})
+                    else:
+                        ctx.holds('R7.loops_make_progress', w, 'counting loop over [%s, %s)' % (T.pretty(l.lo)[:40],
+                                                                                                 T.pretty(l.hi)[:40]))
                     continue
                 verdicts = {}
                 for lab, u in l.updates.items():
